@@ -126,6 +126,19 @@ CLAIMED = {
              'values compared as multisets after collapsing //.',
         technique='Lean 4 proof (loop invariant of the += folding, error cases) + differential run + reference-parser oracle',
         ref='8/C13'),
+    'C04': dict(
+        text='Prep.spec (Lean) is the specification of what .build holds after the prepare stage on an abstract file system: '
+             'sequential ignore (by path, else by name), flattening of groups/*/* and profiles-*-*/* in sorted order, the documented '
+             'configure step, flags marking, overwrite renames and disable/ links, full-system-policy installs. Lean theorems: ignore '
+             'is exact, flattening is lossless under unique base names, and the proved collision witness shows the hypothesis is '
+             'needed; kernel-evaluated examples run a small tree through the whole specification. For every configuration of the tier '
+             'the real prepare stage (cli.Prepare with the task list read from the real binary) is run over a build directory holding '
+             'stale files and its listing (sha1 of every file, target of every link) is compared with Prep.spec evaluated on the working tree.',
+        note='Trusted: Lean kernel for the theorems; Prep.spec is evaluated by the compiled driver; "exactly" is read up to the '
+             'documented configure and full-policy steps, which are written into the specification by hand (a change there is judged, '
+             'not absorbed); flag-rewritten and fsp-edited files are compared by presence here (content: C05/C18).',
+        technique='Lean 4 specification + theorems on the abstract FS, evaluated against the real prepare stage on every configuration',
+        ref='8/C04'),
 }
 
 REASON_TODO = 'check not built yet in this round; no claim is made (see DESIGN.md section 13)'
